@@ -194,4 +194,63 @@ theorem own_step_decreases (s t : Co) (l : Label) (ho : own l = true) (hs : step
     · rename_i r hr; cases hs; simp only [measure, hr]; simp
     · cases hs
 
+/-- fzf's own steps change neither what is loaded nor the query nor the reading flag. -/
+theorem step_own_keeps_world (s t : Co) (l : Label) (ho : own l = true) (hs : step s l = some t) :
+    t.reading = s.reading ∧ t.q = s.q ∧ t.n = s.n := by
+  cases l with
+  | push => cases ho
+  | eof => cases ho
+  | edit q => cases ho
+  | reload => cases ho
+  | coordRead => simp only [step] at hs; split at hs <;> first | (cases hs; exact ⟨rfl, rfl, rfl⟩) | cases hs
+  | coordSearch => simp only [step] at hs; split at hs <;> first | (cases hs; exact ⟨rfl, rfl, rfl⟩) | cases hs
+  | take => simp only [step] at hs; split at hs <;> first | (cases hs; exact ⟨rfl, rfl, rfl⟩) | cases hs
+  | cancel => simp only [step] at hs; split at hs <;> first | (cases hs; exact ⟨rfl, rfl, rfl⟩) | cases hs
+  | finish => simp only [step] at hs; split at hs <;> first | (cases hs; exact ⟨rfl, rfl, rfl⟩) | cases hs
+  | coordFin => simp only [step] at hs; split at hs <;> first | (cases hs; exact ⟨rfl, rfl, rfl⟩) | cases hs
+
+/-- Any run of fzf's own steps is at most `measure s` long. -/
+theorem own_run_bounded : ∀ (ls : List Label) (s t : Co), (∀ l ∈ ls, own l = true) → run s ls = some t →
+    ls.length + measure t ≤ measure s
+  | [], s, t, _, h => by simp only [run] at h; cases h; simp
+  | l :: ls, s, t, ho, h => by
+    simp only [run] at h
+    cases hl : step s l with
+    | none => rw [hl] at h; cases h
+    | some u =>
+      rw [hl] at h
+      have h1 := own_step_decreases s u l (ho l List.mem_cons_self) hl
+      have h2 := own_run_bounded ls u t (fun x hx => ho x (List.mem_cons_of_mem _ hx)) h
+      simp only [List.length_cons]
+      omega
+
+/-- Once input has ended and the world is silent, fzf's own steps lead to the rest state. -/
+theorem reaches_rest : ∀ (n : Nat) (s : Co), measure s ≤ n → s.reading = false →
+    ∃ ls t, (∀ l ∈ ls, own l = true) ∧ run s ls = some t ∧ Quiescent t ∧ t.q = s.q ∧ t.n = s.n
+  | 0, s, hm, hr => by
+    by_cases hq : Quiescent s
+    · exact ⟨[], s, by simp, rfl, hq, rfl, rfl⟩
+    · obtain ⟨l, ho, hs⟩ := not_stuck s hr hq
+      cases hl : step s l with
+      | none => rw [hl] at hs; cases hs
+      | some u => have := own_step_decreases s u l ho hl; omega
+  | n + 1, s, hm, hr => by
+    by_cases hq : Quiescent s
+    · exact ⟨[], s, by simp, rfl, hq, rfl, rfl⟩
+    · obtain ⟨l, ho, hs⟩ := not_stuck s hr hq
+      cases hl : step s l with
+      | none => rw [hl] at hs; cases hs
+      | some u =>
+        have hdec := own_step_decreases s u l ho hl
+        obtain ⟨hkr, hkq, hkn⟩ := step_own_keeps_world s u l ho hl
+        have hru : u.reading = false := by rw [hkr]; exact hr
+        obtain ⟨ls, t, h1, h2, h3, h4, h5⟩ := reaches_rest n u (by omega) hru
+        have hqn : u.q = s.q ∧ u.n = s.n := ⟨hkq, hkn⟩
+        refine ⟨l :: ls, t, ?_, ?_, h3, by rw [h4, hqn.1], by rw [h5, hqn.2]⟩
+        · intro x hx
+          rcases List.mem_cons.mp hx with rfl | hx
+          · exact ho
+          · exact h1 x hx
+        · simp only [run, hl]; exact h2
+
 end Fzf.Coordinator
